@@ -17,7 +17,20 @@ from aioslsk.network.connection import PeerConnection, PeerConnectionState, Peer
 from engine.vloop import VLoop
 
 PROPERTY = 'C20'
-MINB = 128
+
+
+class _G:
+    """size of one grant of the limited limiter, read from the code under test at run time (the property does not pin it)"""
+
+    def __index__(self):
+        return int(rl.LimitedRateLimiter.MIN_BUCKET_SIZE)
+
+
+def G():
+    return int(rl.LimitedRateLimiter.MIN_BUCKET_SIZE)
+
+
+MINB = 128   # only for the mul-hint constants; obligations use G()
 
 
 class _Sleep:
@@ -70,7 +83,7 @@ def hints(c, *vals):
     if c.symbolic:
         for v in vals:
             if isinstance(v, int):
-                for k in (v, v - (MINB - 1), v - MINB):
+                for k in (v, v - (G() - 1), v - G(), v - 127, v - 128):
                     if k not in c.mul_hints:
                         c.mul_hints.append(k)
 
@@ -145,11 +158,11 @@ def h_step(c, fixed_kbps=None):
         c.check(And(b1 >= 0, b1 <= L), 'bucket_in_range')
         c.check(b1 >= b0, 'refill_monotone')
         c.check(_exact(b1 - b0) <= _exact(L) * (_exact(t) - _exact(r0)) + 0, 'refill_at_most_rate', info='added > L*dt')
-        c.check(bool(empty) == bool(b1 < MINB), 'is_empty_truthful')
+        c.check(bool(empty) == bool(b1 < G()), 'is_empty_truthful')
         # a grant is exactly the decrease of the bucket
         g = poll(lim, env, t)
         c.check(lim.bucket == b1 - g, 'grant_is_bucket_decrease')
-        c.check(ite(b1 >= MINB, g == MINB, g == 0) if c.symbolic else (g == (MINB if b1 >= MINB else 0)), 'grant_size')
+        c.check(ite(b1 >= G(), g == G(), g == 0) if c.symbolic else (g == (G() if b1 >= G() else 0)), 'grant_size')
         c.check(lim.bucket >= 0, 'bucket_nonneg_after_take')
 
 
@@ -216,10 +229,10 @@ def h_window(c, k=4, kbps=None, change_at=None, new_kbps=None, direction='upload
         # implied form is the obligation; in concrete replay the extra polls are really
         # performed and the literal window sum is compared.
         if c.symbolic:
-            tail = MINB * (lim.bucket // MINB)
+            tail = G() * (lim.bucket // G())
         else:
             tail = 0
-            for _ in range(int(lim.limit_bps) // MINB + 2):
+            for _ in range(int(lim.limit_bps) // G() + 2):
                 g = poll(lim, env, times[-1])
                 if g == 0:
                     break
@@ -268,9 +281,9 @@ def h_from_unlimited(c, k=3, new_kbps=1, direction='upload'):
             times.append(t)
             t_prev = t
         c.reach('window_end')
-        tail = MINB * (lim.bucket // MINB) if c.symbolic else 0
+        tail = G() * (lim.bucket // G()) if c.symbolic else 0
         if not c.symbolic:
-            for _ in range(int(L) // MINB + 2):
+            for _ in range(int(L) // G() + 2):
                 g = poll(lim, env, times[-1])
                 if g == 0:
                     break
@@ -315,11 +328,26 @@ class _FakeReader:
         return bytes(n)
 
 
-class _FakeFile:
-    def __init__(self, chunks):
-        self.left = chunks
+class _YieldingReader:
+    def __init__(self, log):
+        self.log = log
 
     async def read(self, n):
+        import asyncio as _a
+        await _a.sleep(0)
+        self.log.append(n)
+        return bytes(n)
+
+
+class _FakeFile:
+    def __init__(self, chunks, yielding=False):
+        self.left = chunks
+        self.yielding = yielding
+
+    async def read(self, n):
+        if self.yielding:
+            import asyncio as _a
+            await _a.sleep(0)      # the disk read yields to the loop once per chunk
         if self.left <= 0:
             return b''
         self.left -= 1
@@ -359,6 +387,20 @@ def h_conn(c, op='send', conn_state='NEGOTIATING_TRANSFER', old_kbps=0, new_kbps
             # the old bucket is full and fresh (worst case for a hand-over); arbitrary buckets are H2's job
             old.bucket, old.last_refill = old.limit_bps, t0
             _arbitrary_aux_state(c, old, t0)
+        task = None
+        if when == 'during':
+            # the transfer is already inside its loop when the limit changes
+            if op == 'send':
+                coro0 = conn.send_file(_FakeFile(10**6, yielding=True))
+            else:
+                conn._reader = _YieldingReader(moved)
+                coro0 = conn.receive_file(_FakeFile(0), filesize=10**12)
+            task = loop.spawn(coro0)
+            for _ in range(6):
+                if not loop.step():
+                    break
+            c.reach('running_at_change')
+        moved_before = sum(moved)
         setter(fake_net, new_kbps)
         L = new_kbps * 1024
         times = [t0]
@@ -369,16 +411,24 @@ def h_conn(c, op='send', conn_state='NEGOTIATING_TRANSFER', old_kbps=0, new_kbps
             env.now = t
 
         env.on_sleep = on_sleep
-        chunks = (L // MINB) + 4
-        if op == 'send':
-            coro = conn.send_file(_FakeFile(chunks))
-        else:
-            coro = conn.receive_file(_FakeFile(0), filesize=chunks * MINB)
-        task = loop.spawn(coro)
+        chunks = (L // G()) + 4
+        if task is None:
+            if op == 'send':
+                coro = conn.send_file(_FakeFile(chunks))
+            else:
+                coro = conn.receive_file(_FakeFile(0), filesize=chunks * G())
+            task = loop.spawn(coro)
         n_sleeps = 0
         while not task.done():
-            loop.run_ready()
+            if when == 'during':
+                for _ in range(40):          # bounded: an unthrottled transfer never stops by itself
+                    if not loop.step():
+                        break
+            else:
+                loop.run_ready()
             if task.done():
+                break
+            if when == 'during' and loop._ready:
                 break
             nt = loop.next_timer()
             if nt is None:
@@ -392,10 +442,13 @@ def h_conn(c, op='send', conn_state='NEGOTIATING_TRANSFER', old_kbps=0, new_kbps
         lim_now = getattr(conn, f'{direction}_rate_limiter')
         c.check(lim_now is getattr(fake_net, f'_{direction}_rate_limiter'), 'connection_uses_current_limiter',
                 sig=[op, conn_state, old_kbps, new_kbps])
-        total = sum(moved)
-        pot = MINB * (lim_now.bucket // MINB) if (c.symbolic and type(lim_now) is rl.LimitedRateLimiter) else 0
-        c.check(_exact(total + pot) <= _exact(L) * (_exact(times[-1]) - _exact(t0)) + _exact(L), 'window_bound',
-                sig=['conn', op, conn_state, old_kbps, new_kbps], info={'moved': repr(total)})
+        total = sum(moved) - moved_before
+        lim_now = getattr(fake_net, f'_{direction}_rate_limiter')
+        pot = G() * (lim_now.bucket // G()) if (c.symbolic and type(lim_now) is rl.LimitedRateLimiter) else 0
+        # a chunk whose tokens were granted by the OLD limiter before the change may still be in flight at the change
+        inflight = (rl.UnlimitedRateLimiter.MIN_BUCKET_SIZE if old_kbps == 0 else G()) if when == 'during' else 0
+        c.check(_exact(total + pot) <= _exact(L) * (_exact(times[-1]) - _exact(t0)) + _exact(L) + inflight, 'window_bound',
+                sig=['conn', op, conn_state, old_kbps, new_kbps, when], info={'moved': repr(total)})
         task.cancel()
         loop.cleanup()
 
@@ -422,7 +475,7 @@ def h_callers(c, n=2, order=(0, 1, 0, 1), kbps=1, low=False):
     with Env(c.symbolic) as env:
         lim = rl.RateLimiter.create_limiter(kbps)
         L = lim.limit_bps
-        b0 = c.fresh_int('bucket', 0, MINB - 1 if low else None)
+        b0 = c.fresh_int('bucket', 0, G() - 1 if low else None)
         c.assume(b0 <= L)
         r0 = c.fresh_real('last_refill', lo=0)
         lim.bucket, lim.last_refill = b0, r0
@@ -446,7 +499,7 @@ def h_callers(c, n=2, order=(0, 1, 0, 1), kbps=1, low=False):
                 grants.append(e.value)
                 times.append(t)
                 c.check(lim.bucket >= 0, 'bucket_nonneg_after_take', sig=['callers', n])
-                c.check(e.value == MINB, 'grant_size', sig=['callers'])
+                c.check(e.value == G(), 'grant_size', sig=['callers'])
             else:
                 c.check(r[1] >= rl.INTERVAL, 'sleeps_interval', sig=['callers'])
                 cal['wake'] = t + r[1]
@@ -457,7 +510,7 @@ def h_callers(c, n=2, order=(0, 1, 0, 1), kbps=1, low=False):
         k = len(grants)
         if k:
             c.reach('callers_granted')
-        pot = symex.sym_max(0, MINB * (lim.bucket // MINB)) if c.symbolic else 0
+        pot = symex.sym_max(0, G() * (lim.bucket // G())) if c.symbolic else 0
         for i in range(k):
             total = sum(grants[i:]) + pot
             c.check(_exact(total) <= _exact(L) * (_exact(times[-1]) - _exact(times[i])) + _exact(L), 'window_bound',
@@ -530,9 +583,9 @@ def h_refund(c, old_kbps=0, new_kbps=1, drain=9, after=2):
             t_last = _clock(c, f't_after{j}', t_last)
             moved.append(poll(lim, env, t_last))
         c.reach('refund_end')
-        pot = symex.sym_max(0, MINB * (lim.bucket // MINB)) if c.symbolic else 0
+        pot = symex.sym_max(0, G() * (lim.bucket // G())) if c.symbolic else 0
         if not c.symbolic:
-            for _ in range(int(L) // MINB + 2):
+            for _ in range(int(L) // G() + 2):
                 g = poll(lim, env, t_last)
                 if g == 0:
                     break
@@ -578,7 +631,7 @@ def h_wait_bound(c, kbps=None, n=16):
     hints(c, k0 * 1024 if isinstance(k0, int) else None)
     with Env(c.symbolic) as env:
         lim = rl.RateLimiter.create_limiter(k0)
-        b0 = c.fresh_int('bucket', 0, MINB - 1)
+        b0 = c.fresh_int('bucket', 0, G() - 1)
         T = c.fresh_real('T0', lo=0)
         lim.bucket = b0
         lim.last_refill = T
@@ -602,7 +655,7 @@ def h_wait_bound(c, kbps=None, n=16):
         c.check(granted is not None, 'granted_within_bound', sig=['polls', n],
                 info=f'take_tokens still waiting after {n} polls spaced >= INTERVAL')
         if granted is not None:
-            c.check(granted == MINB, 'grant_size')
+            c.check(granted == G(), 'grant_size')
 
 
 def h_progress_round(c, others=1, kbps=None):
@@ -618,7 +671,7 @@ def h_progress_round(c, others=1, kbps=None):
     hints(c, k0 * 1024 if isinstance(k0, int) else None)
     with Env(c.symbolic) as env:
         lim = rl.RateLimiter.create_limiter(k0)
-        b0 = c.fresh_int('bucket', 0, MINB - 1)
+        b0 = c.fresh_int('bucket', 0, G() - 1)
         T0 = c.fresh_real('T0', lo=0)
         lim.bucket = b0
         lim.last_refill = T0
@@ -642,10 +695,10 @@ def h_progress_round(c, others=1, kbps=None):
         # >= L-127:   gain >= (L-127)*INTERVAL - (others+1);  hence at most
         # ceil(128 / max(1, ceil((L-127)/100) - (others+1))) consecutive grant-less rounds.
         nogrant = (g + foreign == 0)
-        c.check(Implies(nogrant, 100 * (gain + others + 1) >= lim.limit_bps - (MINB - 1)) if c.symbolic
-                else ((g + foreign != 0) or 100 * (gain + others + 1) >= lim.limit_bps - (MINB - 1)),
+        c.check(Implies(nogrant, 100 * (gain + others + 1) >= lim.limit_bps - (G() - 1)) if c.symbolic
+                else ((g + foreign != 0) or 100 * (gain + others + 1) >= lim.limit_bps - (G() - 1)),
                 'grantless_round_gain_lower_bound', sig=['others', others])
-        c.check(Implies(b0 + 0 >= MINB, g == MINB) if c.symbolic else True, 'grant_when_enough')
+        c.check(Implies(b0 + 0 >= G(), g == G()) if c.symbolic else True, 'grant_when_enough')
 
 
 META = {
@@ -699,6 +752,11 @@ def jobs(tier):
             for (a, b) in ([(0, 1), (2, 1)] if q else [(0, 1), (2, 1), (1, 2), (1000, 1)]):
                 out.append({'harness': 'conn', 'fn': h_conn,
                             'params': {'op': op, 'conn_state': st, 'old_kbps': a, 'new_kbps': b}, 'requires': ['conn_end']})
+    for op in ('send', 'receive'):
+        for (a, b) in ([(0, 1)] if q else [(0, 1), (1000, 1)]):
+            out.append({'harness': 'conn', 'fn': h_conn,
+                        'params': {'op': op, 'conn_state': 'TRANSFERRING', 'old_kbps': a, 'new_kbps': b, 'when': 'during'},
+                        'requires': ['conn_end', 'running_at_change']})
     import itertools as _it
     orders = [[0, 1, 0, 1], [0, 1, 1, 0], [0, 0, 1, 1], [0, 1, 0, 0]] if q else \
         [list(o) for o in _it.product(range(2), repeat=4) if o[0] == 0] + \
